@@ -25,6 +25,58 @@ def serial_violation(r, raw):
     return None
 
 
+def elem_panic_schedules(ctx, b, cfg, dist, nontriv):
+    """round 7: a panic that escapes the marshal function of ONE list element (a bound enum's Marshal) on its own
+    goroutine, under schedules that differ in how long the recover hook takes (0 / 3 ms) and in the resolvers' delays:
+    the response (data bytes, error multiset, recover count) must be the same in every repetition of the same case - the
+    list may only be joined after the panicking element has been recovered AND recorded"""
+    reps = 6 if ctx.tier == "quick" else 30
+    cases, groups = [], []
+    for n, k in ((2, 0), (3, 1), (4, 3), (6, 2)):
+        for fld in ("moods", "moodsN"):
+            ov = {"t": {"kind": "value"}, "t/" + fld: {"kind": "value", "len": n}}
+            for j in range(n):
+                ov["t/%s/%d#elem" % (fld, j)] = {"kind": "value", "str": "GRUMPY" if j == k else "SAD"}
+            grp = []
+            for rep in range(reps):
+                cid = "elem-panic-schedule-%s-%d-of-%d-%d" % (fld, k, n, rep)
+                grp.append(len(cases))
+                cases.append({"id": cid, "query": "{ ok t { s %s } }" % fld, "timeoutMs": 4000,
+                              "recoverDelayUs": [0, 3000, 300][rep % 3],
+                              "plan": {"seed": ctx.seed, "rates": {"delay": [0, 600, 900][rep % 3], "maxDelay": 200}, "overrides": ov}})
+            groups.append(grp)
+    rc, so, se = vf.sh([b, "-mode", "run"], inp="\n".join(json.dumps(c) for c in cases) + "\n",
+                       env={"GORACE": "halt_on_error=0 exitcode=66"}, timeout=900)
+    if "WARNING: DATA RACE" in se:
+        ctx.violation({"kind": "data-race", "config": cfg, "report": se[se.index("WARNING: DATA RACE"):][:6000],
+                       "shape": {"race": True}, "cases": cases[:3], "replay": "printf '<cases>' | %s -mode run (race build)" % b})
+    elif rc != 0:
+        raise RuntimeError("runner failed on element-panic schedules rc=%s: %s" % (rc, se[-3000:]))
+    res = [json.loads(l) for l in so.split("\n") if l]
+    if len(res) != len(cases):
+        raise RuntimeError("element-panic schedules: %d results for %d cases" % (len(res), len(cases)))
+
+    def view(r):
+        if r.get("crash") or r.get("hung") or not r.get("payloads"):
+            return ("crash" if r.get("crash") else "hung" if r.get("hung") else "no-payload",)
+        p = r["payloads"][0]
+        return (json.dumps(p.get("data"), sort_keys=True), tuple(sorted(e["path"] + " :: " + e["message"] for e in p["errors"])), r.get("recovers"))
+    for grp in groups:
+        views = [view(res[i]) for i in grp]
+        dist["element-marshal-panic-schedule-group"] += 1
+        nontriv.add(cases[grp[0]]["id"])
+        base = views[0]
+        for i, v in zip(grp, views):
+            if v != base:
+                ctx.violation({"kind": "schedule-dependence", "config": cfg, "why": ["element-marshal-panic: the response depends on the recover hook's duration / the resolvers' delays"],
+                               "case_a": cases[grp[0]], "response_a": res[grp[0]].get("payloads"), "recovers_a": res[grp[0]].get("recovers"),
+                               "case_b": cases[i], "response_b": res[i].get("payloads"), "recovers_b": res[i].get("recovers"),
+                               "shape": {"why": "element-marshal-panic-schedule"},
+                               "replay": "echo '<case_a json>' | <generated server %s (race build)> -mode run; the same with case_b: both must give the same response" % cfg})
+                break
+    return len(cases)
+
+
 def run(ctx):
     if getattr(ctx, "replay", None):
         from checks import execreplay
@@ -100,6 +152,8 @@ def run(ctx):
                 r0 = json.loads(l)
                 dist["directed-merge-shape"] += 1
             lines += cl
+        if cfg == "execboom:base":
+            total += elem_panic_schedules(ctx, b, cfg, dist, nontriv)
         model = ctx.driver("c06", [schema] + lines) if proved else [None] * len(lines)
         ok = 0
         for l, m in zip(lines, model):
